@@ -365,4 +365,40 @@ theorem RGeo.stop_le_rend {r : List Seg} (h : RGeo r) : ∀ g ∈ r, g.stop ≤ 
   have := ((rgeo_iff_geoOK r).mp h).stop_le_endOf g (List.mem_reverse.mpr hg)
   rwa [← rend_reverse, List.reverse_reverse] at this
 
+/-! ### index form and the tiling of the input -/
+
+theorem Chain.getElem?_succ : ∀ {l : List Seg}, Chain l → ∀ (i : Nat) (a b : Seg),
+    l[i]? = some a → l[i + 1]? = some b → b.start = a.stop
+  | [], _, i, a, b, ha, _ => by simp at ha
+  | x :: t, h, i, a, b, ha, hb => by
+    rw [chain_cons_iff] at h
+    cases i with
+    | zero =>
+      simp only [List.getElem?_cons_zero, Option.some.injEq] at ha
+      simp only [Nat.zero_add, List.getElem?_cons_succ] at hb
+      subst ha
+      exact h.1 b (by rw [List.head?_eq_getElem?]; exact hb)
+    | succ i =>
+      simp only [List.getElem?_cons_succ] at ha hb
+      exact Chain.getElem?_succ h.2 i a b ha hb
+
+/-- the input slice `substr(start, end - start)` the C++ takes for a segment -/
+def Seg.slice (input : Bytes) (g : Seg) : Bytes := substr input g.start (g.stop - g.start)
+
+/-- contiguous segments tile the input: their slices, concatenated, are the input up to the last end -/
+theorem slices_flatten (input : Bytes) : ∀ {l : List Seg}, GeoOK l →
+    (l.map (Seg.slice input)).flatten = input.take (endOf l) := by
+  intro l
+  induction l using snoc_induction with
+  | h0 => intro _; simp [endOf]
+  | h1 l b ih =>
+    intro h
+    rw [List.map_append, List.flatten_append, ih h.init, endOf_snoc]
+    simp only [List.map_cons, List.map_nil, List.flatten_cons, List.flatten_nil, List.append_nil]
+    unfold Seg.slice substr
+    rw [h.last_start]
+    have hle : endOf l ≤ b.stop := by rw [← h.last_start]; exact h.last.1
+    have : b.stop = endOf l + (b.stop - endOf l) := by omega
+    conv => rhs; rw [this, List.take_add]
+
 end RimeModel.Session
